@@ -101,3 +101,12 @@ Proof.
   - destruct (c_second a); intros H; inversion H; cbn; auto.
   - destruct (c_s a =? 0)%Z; intros H; inversion H; cbn; auto.
 Qed.
+
+Theorem plain_ops_sink {SA SB : Type} (decA : SA -> res plain) uB okB (encB : plain -> res SB) decB :
+  plain_faithful uB okB encB decB ->
+  forall ops src p, decA src = Ok p -> okB (ops_plain ops p) ->
+  exists dst, convert_plain_ops decA encB ops src = Ok dst /\ decB dst = Ok (ptrunc uB (ops_plain ops p)).
+Proof.
+  intros HB ops src p Hd Hp. destruct (HB _ Hp) as (dst & Hw & Hr). exists dst. split; [|exact Hr].
+  unfold convert_plain_ops. rewrite Hd. exact Hw.
+Qed.
